@@ -1,23 +1,23 @@
 SPECIFICATION MCSpec
 CONSTANTS
-  MaxRecs = 5
+  MaxRecs = 4
   MaxBatch = 1
-  MaxOps = 8
+  MaxOps = 7
   MaxEpoch = 1
-  CapSet = {2, 3}
-  KeySet = {"nil", "empty", "a", "b"}
+  CapSet = {1, 2}
+  KeySet = {"nil", "a"}
   AgeSet = {0}
-  MsgsSet = {0, 3}
+  MsgsSet = {0}
   BytesSet = {0}
   CompactSet = {TRUE}
   LagSet = {0}
   BigSet = {FALSE}
-  MaxCleans = 2
+  MaxCleans = 1
   MaxTicks = 0
-  UseWindow = TRUE
+  UseWindow = FALSE
   UseReopen = FALSE
   UseEpochs = FALSE
-  UseReaders = FALSE
+  UseReaders = TRUE
 INVARIANTS CTypeOK C01_Ordered SegsConsistent NoEmptyInnerSegment
 PROPERTIES StepsOK
 VIEW MCView
